@@ -419,39 +419,81 @@ Definition too_long (maxlen : Z) (val : bytes) : bool :=
 Definition kv_line (maxlen : Z) (k val : bytes) : line_out :=
   if too_long maxlen val then LSkipLong else LLine (k ++ [61] ++ val).
 
-Definition save_one (maxlen : Z) (extras : list bytes) (k : bytes) (v : sval) : line_out :=
-  if const_extra extras k then LSkipConst
+(* the printed form of a stored object (Object.Inspect); None = the printer panicked *)
+Definition binding_text (v : sval) : option bytes :=
+  match v with
+  | SData d => Some (inspect d)
+  | SFunc name params body => func_text name params body
+  | SOpaque _ txt => Some txt
+  end.
+
+Fixpoint lookup_key {A} (k : bytes) (l : list (bytes * A)) : option A :=
+  match l with
+  | [] => None
+  | (k', v) :: r => if beqb k' k then Some v else lookup_key k r
+  end.
+
+(* what a binding contributes before the length limit is looked at *)
+Inductive btext : Type :=
+| BConst               (* a constant that is an extra identifier: never saved *)
+| BDef (l : bytes)     (* a definition line (named function under its own name): written whatever its length *)
+| BVal (val : bytes)   (* name=val, subject to the limit *)
+| BPanic.
+
+(* [store]: the whole root environment (e.store): an alias of a named function is written with the inner name only
+   while that name still denotes the same function (same printed form); otherwise in lambda form (fix 0adeef3) *)
+Definition binding_out (store : list (bytes * sval)) (extras : list bytes) (k : bytes) (v : sval) : btext :=
+  if const_extra extras k then BConst
   else
     match v with
-    | SData d => kv_line maxlen k (inspect d)
-    | SFunc name params body =>
-      match func_text name params body with
-      | None => LPanic
+    | SData d => BVal (inspect d)
+    | SFunc None params body =>
+      match func_text None params body with Some txt => BVal txt | None => BPanic end
+    | SFunc (Some nm) params body =>
+      match func_text (Some nm) params body with
+      | None => BPanic
       | Some txt =>
-        match name with
-        | Some nm => if beqb nm k then LLine txt else kv_line maxlen k txt
-        | None => kv_line maxlen k txt
-        end
+        if beqb nm k then BDef txt
+        else
+          let same :=
+            match lookup_key nm store with
+            | Some (SData _) => Some false                      (* own.Type() != FUNC *)
+            | Some own => match binding_text own with Some t => Some (beqb t txt) | None => None end
+            | None => Some false
+            end in
+          match same with
+          | None => BPanic
+          | Some true => BVal txt
+          | Some false => match func_text None params body with Some t => BVal t | None => BPanic end
+          end
       end
-    | SOpaque true txt => LLine txt
-    | SOpaque false txt => kv_line maxlen k txt
+    | SOpaque true txt => BDef txt
+    | SOpaque false txt => BVal txt
     end.
 
+Definition save_one (store : list (bytes * sval)) (maxlen : Z) (extras : list bytes) (k : bytes) (v : sval) : line_out :=
+  match binding_out store extras k v with
+  | BConst => LSkipConst
+  | BDef l => LLine l
+  | BVal val => kv_line maxlen k val
+  | BPanic => LPanic
+  end.
+
 (* the write loop: output so far, number of ids written; None = panic *)
-Fixpoint save_loop (maxlen : Z) (extras : list bytes) (bs : list (bytes * sval)) (out : bytes) (n : nat)
-  : option (bytes * nat) :=
+Fixpoint save_loop (store : list (bytes * sval)) (maxlen : Z) (extras : list bytes) (bs : list (bytes * sval))
+  (out : bytes) (n : nat) : option (bytes * nat) :=
   match bs with
   | [] => Some (out, n)
   | (k, v) :: r =>
-    match save_one maxlen extras k v with
-    | LSkipConst | LSkipLong => save_loop maxlen extras r out n
-    | LLine l => save_loop maxlen extras r (out ++ l ++ [10]) (S n)
+    match save_one store maxlen extras k v with
+    | LSkipConst | LSkipLong => save_loop store maxlen extras r out n
+    | LLine l => save_loop store maxlen extras r (out ++ l ++ [10]) (S n)
     | LPanic => None
     end
   end.
 
 Definition save_globals (maxlen : Z) (extras : list bytes) (env : list (bytes * sval)) : option (bytes * nat) :=
-  save_loop maxlen extras (sort_keys env) [] O.
+  save_loop env maxlen extras (sort_keys env) [] O.
 
 (* ================================================================ reading a saved data line back *)
 Definition neg64 (z : Z) : Z := if Z.eqb z min_int64 then z else (- z)%Z.   (* -v on int64 wraps *)
